@@ -110,6 +110,13 @@ class ModVal:
         self.x, self.k = x, k
 
 
+class NegMask:
+    """x & ~m (m >= 0): the bits of x outside m, waiting for a zero test"""
+
+    def __init__(self, x, m):
+        self.x, self.m = x, m
+
+
 class XorVal:
     """bits ^ constant, waiting for the `- constant` of the sign-extension idiom ((x & m) ^ s) - s"""
 
@@ -138,6 +145,22 @@ class TableVal:
 
     def __hash__(self):
         return hash(('TableVal', self.table))
+
+
+class TableRef:
+    """a module-level dict table (REGISTERS ...), by name: lookups go through the table model wherever the value flows"""
+
+    def __init__(self, name):
+        self.name = name
+
+    def __eq__(self, o):
+        return isinstance(o, TableRef) and o.name == self.name
+
+    def __hash__(self):
+        return hash(('TableRef', self.name))
+
+    def __repr__(self):
+        return 'TableRef({})'.format(self.name)
 
 
 class Opaque:
